@@ -438,6 +438,8 @@ struct Ctx {
     max_rel_err: f64,
     /// tolerance observations already recorded in full (the report keeps 20 observations in all)
     n_inexact_obs: usize,
+    /// ghost-key observations already recorded in full (live, recovered)
+    n_ghost_obs: (usize, usize),
 }
 
 impl Ctx {
@@ -664,7 +666,8 @@ fn check_recovery(ctx: &mut Ctx, ds: &DiskState, cfg: &WalConfig, exp: &Expect, 
         let embp = format!("!{}", hex(b"emb:"));
         for g in img.iter().filter(|s| s.starts_with(&embp)) {
             ctx.rep.hit("observe.ghost_key_in_recovered_scan");
-            ctx.rep.observe(json!({"class": FAILED_PUT_GHOST, "what": "RECOVERED store: scan lists an emb: key that get rejects (entity-index entry of a failed put_durable, persisted by a checkpoint)", "key_hex": g, "crash": info.what, "snapshot": ds.snap_name, "script": info.script}));
+            ctx.n_ghost_obs.1 += 1;
+            if ctx.n_ghost_obs.1 <= 3 { ctx.rep.observe(json!({"class": FAILED_PUT_GHOST, "what": "RECOVERED store: scan lists an emb: key that get rejects (entity-index entry of a failed put_durable, persisted by a checkpoint)", "key_hex": g, "crash": info.what, "snapshot": ds.snap_name, "script": info.script})); }
         }
     }
     let _ = std::fs::remove_dir_all(&d);
@@ -1176,7 +1179,8 @@ fn run_chain(ctx: &mut Ctx, r: &mut Rng, cc: &ChainCfg, epochs: &[Vec<Op>]) {
             let key = String::from_utf8(nverif::unhex(&g[1..])).unwrap_or_default();
             if key.starts_with("emb:") {
                 ctx.rep.hit("observe.ghost_key_in_scan");
-                ctx.rep.observe(json!({"class": FAILED_PUT_GHOST, "what": "LIVE store: scan lists (and exists confirms) an emb: key that get rejects: a put_durable whose append was refused left its entity-index entry behind", "exists": store.exists(&key), "key_hex": g, "script": script}));
+                ctx.n_ghost_obs.0 += 1;
+                if ctx.n_ghost_obs.0 <= 3 { ctx.rep.observe(json!({"class": FAILED_PUT_GHOST, "what": "LIVE store: scan lists (and exists confirms) an emb: key that get rejects: a put_durable whose append was refused left its entity-index entry behind", "exists": store.exists(&key), "key_hex": g, "script": script})); }
             } else {
                 // only emb: keys live in the entity index: a key of any other class that scan lists is readable
                 ctx.rep.hit(&format!("violation.{NON_EMB_GHOST}"));
@@ -1574,6 +1578,63 @@ fn probe_non_emb_vector_key(ctx: &mut Ctx) {
     }
 }
 
+/// candidate finding (outside the sequential quantifier of C02: needs two threads; reported as an observation):
+/// `checkpoint` releases the log mutex between its fsync, the snapshot and the marker + truncate steps, so a
+/// put_durable of another thread that lands after the snapshot was taken and before the log is truncated is
+/// acknowledged, absent from the snapshot and wiped from the log
+const CKPT_RACE: &str = "tensor_store.slab_router.checkpoint/concurrent_durable_write_lost_by_truncate";
+
+/// One writer thread issues Immediate put_durable calls in a loop while the main thread takes a checkpoint; after
+/// both have finished the directory is recovered and every write that had returned Ok is looked up. Real threads,
+/// real time: how many writes fall into the window varies from run to run, so this is an observation only.
+fn probe_checkpoint_vs_writer(ctx: &mut Ctx) {
+    use std::sync::atomic::{AtomicBool, AtomicUsize, Ordering};
+    use std::sync::Arc;
+    let dir = ctx.fresh_dir();
+    let wal_path = dir.join("w.wal");
+    let snap_path = dir.join("snap.bin");
+    let cfg = cfg_for(SyncMode::Immediate, None);
+    let Ok(store) = TensorStore::open_durable(&wal_path, cfg.clone()) else { return };
+    let store = Arc::new(store);
+    for i in 0..40 {
+        let _ = store.put_durable(format!("base{i}"), td("0123456789012345678901234567890123456789"));
+    }
+    let stop = Arc::new(AtomicBool::new(false));
+    let acked = Arc::new(AtomicUsize::new(0));
+    let writer = {
+        let (store, stop, acked) = (store.clone(), stop.clone(), acked.clone());
+        std::thread::spawn(move || {
+            let mut i = 0usize;
+            while !stop.load(Ordering::SeqCst) && i < 5000 {
+                if store.put_durable(format!("w{i}"), td("x")).is_ok() {
+                    i += 1;
+                    acked.store(i, Ordering::SeqCst);
+                }
+            }
+        })
+    };
+    std::thread::sleep(std::time::Duration::from_millis(10));
+    let ck = store.checkpoint(&snap_path);
+    stop.store(true, Ordering::SeqCst);
+    let _ = writer.join();
+    let n = acked.load(Ordering::SeqCst);
+    let live_has_all = (0..n).all(|i| store.exists(&format!("w{i}")));
+    drop(store);
+    let rec = TensorStore::recover(&wal_path, &cfg, Some(&snap_path));
+    if let (Ok(_), Ok(r)) = (&ck, &rec) {
+        let lost: Vec<String> = (0..n).filter(|i| !r.exists(&format!("w{i}"))).map(|i| format!("w{i}")).collect();
+        ctx.rep.case("probe_checkpoint_vs_writer", None);
+        if lost.is_empty() {
+            ctx.rep.hit("observe.checkpoint_vs_writer.no_write_fell_into_the_window");
+        } else {
+            ctx.rep.hit("observe.concurrent_write_lost_by_checkpoint");
+            ctx.rep.observe(json!({"class": CKPT_RACE, "what": "a writer thread issued Immediate put_durable calls (each returned Ok) while another thread ran checkpoint; after both finished, recovery from the directory (snapshot + log) does not know some of them: they were logged after the snapshot was taken and wiped by the truncation", "acknowledged_writes": n, "live_store_had_all": live_has_all, "lost_after_recovery": lost.len(), "first_lost": lost.iter().take(4).collect::<Vec<_>>(), "script": "40 base puts; thread A: put_durable w0, w1, … in a loop; thread B: checkpoint; join; recover"}));
+        }
+    }
+    drop(rec);
+    let _ = std::fs::remove_dir_all(&dir);
+}
+
 fn td(s: &str) -> TensorData {
     let mut d = TensorData::new();
     d.set("f", TensorValue::Scalar(ScalarValue::String(s.to_string())));
@@ -1598,6 +1659,7 @@ fn main() {
         snap_contents: std::collections::HashMap::new(),
         max_rel_err: 0.0,
         n_inexact_obs: 0,
+        n_ghost_obs: (0, 0),
     };
     ctx.rep.expected_branches = [
         "record.set", "record.del", "record.eset", "record.edel", "record.eremove", "keyclass.embedding", "keyclass.graph", "keyclass.table",
@@ -1791,6 +1853,8 @@ fn main() {
             run_chain(&mut ctx, &mut r, &cc, &eps);
         }
     }
+
+    probe_checkpoint_vs_writer(&mut ctx);
 
     // 1. crc + frames
     let mut r = rng.fork("crc");
